@@ -56,7 +56,7 @@ theorem J_read (c : JCtx) (e : Expr) (hf : JsOkE e = true) (n : Node) (h : Emb e
   unfold readJsExpr
   rw [lex_toJsE c e hf]
   simp only [Option.bind_some]
-  rw [jExpr_prJ (toJsE c e) (toJsE_frag c e (jsOk_src e hf)) _ (by omega)]
+  rw [jExpr_prJ (toJsE c e) (toJsE_fragJ c e hf) _ (by omega)]
 
 /-- non-vacuity: `(a & "x\"y") contains -max(b, [1, #foo])` with `a` a parameter and `b` a global -/
 def exExpr : Expr :=
@@ -306,7 +306,7 @@ theorem C04_model_partial_all (o : Options) (s : Spec.Script) (c : Compiled) (hf
   exact ⟨text, h1, by rw [h2]; rfl⟩
 
 /-- non-vacuity: a property script with a structured handler (`repeat with … down to` > `if … else` with a condition that needs
-    the parentheses of F160, a command call, a call of a handler of the same script; `repeat while` with an infix condition;
+    the parentheses of F160, a `hilite`, a command call, a call of a handler of the same script; `repeat while` with an infix condition;
     `return`) and a flat handler -/
 def exAll : Spec.Script :=
   { factory := [], props := ["pLast".toList], globals := [],
@@ -315,7 +315,8 @@ def exAll : Spec.Script :=
         body := [ .set (.var .loc "total".toList) (.int 0),
                   .repeatWith (.var .loc "i".toList) (.var .param "n".toList) (.int 1) true
                     [ .ifThen (.bin .contains (.bin .concat (.bin .mod (.var .loc "i".toList) (.int 2)) (.str "x".toList)) (.str "1".toList))
-                        [ .set (.var .loc "total".toList) (.bin .add (.var .loc "total".toList) (.var .loc "i".toList)) ]
+                        [ .set (.var .loc "total".toList) (.bin .add (.var .loc "total".toList) (.var .loc "i".toList)),
+                          .hilite (.chunk .word (.int 1) (.int 0) (.field (.var .loc "i".toList))) ]
                         [ .call "beep".toList [],
                           .call "helper".toList [.var .loc "total".toList, .sym "odd".toList] ] ],
                   .repeatWhile (.bin .gt (.var .loc "total".toList) (.int 100))
@@ -342,16 +343,58 @@ example : ∃ c, compile {} exAll = .ok c ∧ NamesOk c := by
 example : String.ofList (txClassProg ("Object__".toList ++ (toString 0).toList) (S "ObjectBase")
       (exAll.handlers.map (toJsFunc (exAll.handlers.map (·.name)) true))
       ((exAll.handlers.filter (·.name ≠ "birth".toList)).map fun h => wrapperFunc h.name)) =
-    "class Object__0 extends ObjectBase {\n    countDown(n) {\n        var total;\n        var i;\n\n        total = 0;\n        for(i = n; i >= 1; i--) {\n            if ((i % 2).concat(new LingoString(\"x\")).contains(new LingoString(\"1\"))) {\n                total = (total + i);\n            } else {\n                beep();\n                fn_call(helper(total, symbol('odd')));\n            }\n        }\n        while (total > 100) {\n            total = (total / 2);\n        }\n        return total;\n    }\n\n    helper(a, b) {\n        this.pLast = a;\n        exit();\n    }\n}\n\nfunction countDown(obj, ...args) {\n    return obj.countDown(...args);\n}\nfunction helper(obj, ...args) {\n    return obj.helper(...args);\n}\n" := by
+    "class Object__0 extends ObjectBase {\n    countDown(n) {\n        var total;\n        var i;\n\n        total = 0;\n        for(i = n; i >= 1; i--) {\n            if ((i % 2).concat(new LingoString(\"x\")).contains(new LingoString(\"1\"))) {\n                total = (total + i);\n                hilite(field(i).word[1]);\n            } else {\n                beep();\n                fn_call(helper(total, symbol('odd')));\n            }\n        }\n        while (total > 100) {\n            total = (total / 2);\n        }\n        return total;\n    }\n\n    helper(a, b) {\n        this.pLast = a;\n        exit();\n    }\n}\n\nfunction countDown(obj, ...args) {\n    return obj.countDown(...args);\n}\nfunction helper(obj, ...args) {\n    return obj.helper(...args);\n}\n" := by
   decide +kernel
-
-/-! ### the border of the fragment: where model and spec DISAGREE (each confirmed on the real translator; design.d/C04Link.md) -/
 
 /-- the text `generate_js` returns for a node (none if it raises or returns an int) -/
 def jsOut (n : Node) : Option String :=
   match js true false n 0 with
   | .ok (.s t) => some (String.ofList t)
   | _ => none
+
+/-! ### the expression forms added to `JsOkE` in the second round: property lists, `the P of obj`, chunk expressions, the built-in
+     properties of sprite / cast / sound (all inside `J_text` / `J_lex` / `J_read` and the composed theorems above) -/
+
+/-- non-vacuity: a flat handler using every new form -/
+def exForms : Spec.Script :=
+  { factory := [], props := [], globals := ["gObj".toList],
+    handlers := [
+      { name := "forms".toList, params := ["s".toList, "n".toList, "i".toList], isMethod := false,
+        body := [ .set (.var .loc "x".toList) (.plist [.sym "a".toList, .oprop "foo".toList (.var .glob "gObj".toList),
+                                                        .sym "b".toList, .chunk .word (.int 2) (.int 0) (.var .param "s".toList)]),
+                  .set (.var .loc "y".toList) (.bin .add (.the .sprite 13 [.int 3]) (.the .sound 1 [.var .param "i".toList])),
+                  .set (.var .loc "z".toList) (.chunk .char (.int 1) (.var .param "n".toList) (.the .cast 1 [.var .param "i".toList])),
+                  .set (.var .loc "w".toList) (.oprop "length".toList (.chunk .item (.un .neg (.var .param "n".toList)) (.int 0) (.int 7))),
+                  .set (.the .sprite 13 [.var .param "i".toList]) (.bin .add (.the .sprite 13 [.var .param "i".toList]) (.int 1)),
+                  .set (.oprop "foo".toList (.var .glob "gObj".toList)) (.var .loc "x".toList),
+                  .set (.var .loc "y".toList) (.bin .concat (.the .numChunks 2 [.var .param "s".toList])
+                      (.the .special 12 [.the .field 2 [.bin .add (.var .param "i".toList) (.int 1)]])),
+                  .set (.var .loc "z".toList) (.list [.key "mouseH".toList, .key "optionDown".toList, .the .special 0 []]) ] } ] }
+
+example : JsLinkScript exForms = true := by decide +kernel
+
+example : ∃ c, compile {} exForms = .ok c ∧ NamesOk c := by
+  have h : (match compile {} exForms with
+      | .ok c => decide ((∀ n ∈ c.names, asciiName n = true) ∧ c.names.length < 32768)
+      | .error _ => false) = true := by decide +kernel
+  cases hc : compile {} exForms with
+  | error e => rw [hc] at h; cases h
+  | ok c => rw [hc] at h; exact ⟨c, rfl, by simpa [NamesOk] using h⟩
+
+/-- the text the theorems predict (the REAL translator prints exactly this text for the compiled chunks) -/
+example : String.ofList (txFuncs (exForms.handlers.map (toJsFunc (exForms.handlers.map (·.name)) false)) true) =
+    "function forms(s, n, i) {\n    var x;\n    var y;\n    var z;\n    var w;\n\n    x = propList(symbol('a'), _global.gObj.foo, symbol('b'), s.word[2]);\n    y = (sprite(3).locH + sound(i).volume);\n    z = member(i).name.char[range(1, n)];\n    w = (7).item[-(n)].length;\n    sprite(i).locH = (sprite(i).locH + 1);\n    _global.gObj.foo = x;\n    y = s.word.length.concat(field((i + 1)).text.char[\"last\"]);\n    z = list(_mouse.mouseH, _key.optionDown, _system.floatPrecision);\n}\n" := by
+  decide +kernel
+
+/-- F20 (open): the object index of a built-in property keeps only the popped node's `.name` — a global loses its `_global.`; the
+    index forms for which model and `toJs` agree are `idxJsOk` (integer literals, locals and parameters other than `me`) -/
+theorem F20_witness :
+    jsOut (.propAcc 2 (.leaf .sprite (.s (S "gCount")) 1) (S "locH") false) = some "sprite(gCount).locH" ∧
+    String.ofList (txJ (toJsE c0 (.the .sprite 13 [.var .glob "gCount".toList]))) = "sprite(_global.gCount).locH" ∧
+    JsOkE (.the .sprite 13 [.var .glob "gCount".toList]) = false ∧ JsOkE (.the .sprite 13 [.int 3]) = true := by
+  refine ⟨by decide +kernel, by decide +kernel, by decide +kernel, by decide +kernel⟩
+
+/-! ### the border of the fragment: where model and spec DISAGREE (each confirmed on the real translator; design.d/C04Link.md) -/
 
 /-- D1 (= F139, repaired in /repo c7a3b33 and followed by the model): a declared property whose name is also a key of
     `ast.variable.KNOWN_PROPERTIES` is read through the script object, like its assignment and like `toJs`; it is inside the fragment -/
